@@ -7,6 +7,7 @@ structural theorems; `NoCollision` is the stated CRC caveat.
 -/
 import RqModel.Model.SnapStream
 import RqModel.Lemmas.SnapStream
+import RqModel.Gen.SinkClose
 namespace C10
 open RqModel.SnapStream
 
@@ -709,6 +710,42 @@ theorem installed_verified (E : Ext) (s : SinkSt) (db : Bytes) (wals : List Byte
 
 /-- a stream that ends before its header is complete is never reported as installed -/
 theorem header_incomplete_fails (E : Ext) (buf : Bytes) : sinkClose E (.header buf) = .closeErr .incomplete := rfl
+
+/-! ### the "or nothing" half: a crash during `Sink.Close` -/
+
+/-- **crash_installs_all_or_nothing.** Wherever the process dies during `Sink.Close`, after the
+next start the store shows either no trace of the snapshot or the complete snapshot directory
+(data files, CRC sidecars and meta.json): the rename into place comes after every write. -/
+theorem crash_installs_all_or_nothing (k : Nat) :
+    visibleAfterRestart (crashAfter k) = none ∨
+    ∃ d, visibleAfterRestart (crashAfter k) = some d ∧ d.complete = true := by
+  have h : ∀ j, j ≤ closeSteps.length → (visibleAfterRestart (crashAfter j) = none ∨
+      ∃ d, visibleAfterRestart (crashAfter j) = some d ∧ d.complete = true) := by decide
+  by_cases hk : k ≤ closeSteps.length
+  · exact h k hk
+  · have : crashAfter k = crashAfter closeSteps.length := by
+      simp only [crashAfter]
+      rw [List.take_of_length_le (by omega), List.take_of_length_le (Nat.le_refl _)]
+    rw [this]; exact h _ (Nat.le_refl _)
+
+/-- nothing is visible before the rename step, the whole snapshot from it on -/
+theorem crash_before_rename_shows_nothing :
+    (∀ k, k < 4 → visibleAfterRestart (crashAfter k) = none) ∧
+    (∀ k, k < 7 → 4 ≤ k → visibleAfterRestart (crashAfter k) = some ⟨true, true, true⟩) := by decide
+
+open RqModel.Gen.SinkClose in
+/-- **close_order_fact.** In the CURRENT source, after the sink-specific part (`sinkW.Close()`
+for a full snapshot; moving the WAL directory in for an incremental one) `Sink.Close` calls
+writeMeta, syncs the tmp directory, renames it into place, clears the full-needed flag and
+syncs the store directory, in this order; `FullSink.Close` runs the SQLite-format checks before
+it writes any sidecar; `Store.check` removes tmp directories. -/
+theorem close_order_fact :
+    (sinkCloseCalls.drop 5).filterMap closeStepOfCall =
+      [.closeFiles, .writeMeta, .syncTmp, .rename, .clearFlag, .syncTmp] ∧
+    (sinkCloseCalls.drop 5) = ["Close", "writeMeta", "SyncDirMaybe", "Rename", "ClearFullNeeded", "SyncDirMaybe"] ∧
+    sinkCloseCalls.take 5 = ["RemoveAll", "RemoveAll", "Rename", "MoveWALFilesTo", "Remove"] ∧
+    fullSinkCloseCalls = ["IsValidSQLiteFile", "IsValidSQLiteWALFile", "WriteFile", "WriteFile"] ∧
+    storeCheckCalls = ["isTmpName", "RemoveAll"] := by decide
 
 /-! ### non-vacuity: a concrete stream through concrete (toy) externals -/
 
